@@ -5,24 +5,44 @@ Lemmas about `Model/Placeholder`.
 namespace Dcg.Proofs.Placeholder
 open Dcg.Model.Placeholder
 
-/-- every member after the pass is an original member that was not pending, or a copy (marked
-required) of what the lookup returned for a pending one -/
+/-- `pending` is exactly "has a wire name (any string) and an empty type" -/
+theorem pending_iff (f : Fld) : pending f = true ↔ (∃ n, f.orig = some n) ∧ f.typed = false := by
+  unfold pending
+  cases f.orig <;> cases f.typed <;> simp
+
+/-- every member after the pass is an original member that has no wire name or has a type, or a copy
+(marked required) of what the lookup returned for the wire name of a member with an empty type -/
 theorem overrideFields_mem {find : List Char → Option Fld} {fs : List Fld} {g : Fld}
     (h : g ∈ overrideFields find fs) :
-    (g ∈ fs ∧ pending g = false) ∨
-    (∃ f ∈ fs, pending f = true ∧ ∃ o, find (f.orig.getD []) = some o ∧ g = { o with required := true }) := by
+    (g ∈ fs ∧ (g.orig = none ∨ g.typed = true)) ∨
+    (∃ f ∈ fs, ∃ n, f.orig = some n ∧ f.typed = false ∧
+      ∃ o, find n = some o ∧ g = { o with required := true }) := by
   unfold overrideFields at h
   obtain ⟨f, hf, hg⟩ := List.mem_filterMap.mp h
   unfold overrideOne at hg
-  by_cases hp : pending f = true
-  · right
-    rw [if_pos hp] at hg
-    obtain ⟨o, ho, hgo⟩ := Option.map_eq_some_iff.mp hg
-    exact ⟨f, hf, hp, o, ho, hgo.symm⟩
-  · left
-    rw [if_neg hp] at hg
+  split at hg
+  · rename_i n ho ht
+    right
+    obtain ⟨o, hfo, hgo⟩ := Option.map_eq_some_iff.mp hg
+    exact ⟨f, hf, n, ho, ht, o, hfo, hgo.symm⟩
+  · rename_i hne
+    left
     cases hg
-    exact ⟨hf, by simpa using hp⟩
+    refine ⟨hf, ?_⟩
+    cases ho : g.orig with
+    | none => exact Or.inl rfl
+    | some n =>
+      cases ht : g.typed with
+      | true => exact Or.inr rfl
+      | false => exact absurd ht (hne n ho)
+
+/-- a member with a wire name and an empty type never stays as it is: the pass is a function of the
+lookup alone for it (dropped when the lookup finds nothing) -/
+theorem overrideOne_placeholder (find : List Char → Option Fld) (f : Fld) (n : List Char)
+    (ho : f.orig = some n) (ht : f.typed = false) :
+    overrideOne find f = (find n).map (fun o => { o with required := true }) := by
+  unfold overrideOne
+  rw [ho, ht]
 
 /-- a member the breadth-first lookup returns is a member of one of the models it walked, and has
 the wire name that was looked for -/
